@@ -640,4 +640,359 @@ Proof.
     + destruct (lines_none _ _ I E). apply retry_pattern; auto.
 Qed.
 
+(* ---------------------------------------------------------------- read_body *)
+Lemma ev_read_body c b : buf_inv b -> c_state c = ReadBody -> ev c b = evK (read_body c b).
+Proof. intros I S. rewrite (ev_step _ _ I). unfold Http1Seg.step. rewrite S. reflexivity. Qed.
+
+(* a section of the body read with maybe_extract_at_most(n): g k is the connection after k bytes of it *)
+Lemma data_merge c b x n (g : N -> conn) a b' :
+  buf_inv b -> c_state c = ReadBody ->
+  (forall bb, read_body c bb = match maybe_extract_at_most bb n with
+                               | (None, b1) => Stop c b1 []
+                               | (Some d, b1) => Go (g (N.of_nat (length d))) b1 (Http1Seg.data_out Req Resp c d)
+                               end) ->
+  (forall k bb, (k < n)%N ->
+                read_body (g k) bb = match maybe_extract_at_most bb (n - k)%N with
+                                     | (None, b1) => Stop (g k) b1 []
+                                     | (Some d, b1) => Go (g (k + N.of_nat (length d))%N) b1 (Http1Seg.data_out Req Resp c d)
+                                     end) ->
+  (forall k, c_state (g k) = ReadBody) ->
+  maybe_extract_at_most b n = (Some a, b') ->
+  tr_rel (ev c (buf_add b x)) (K (Go (g (N.of_nat (length a))) b' (Http1Seg.data_out Req Resp c a)) x).
+Proof.
+  intros I S H1 H2 Hg E. pose proof (buf_inv_add b x I) as J.
+  destruct (at_most_app _ x _ _ _ E) as (a' & r' & Es & Ea & Hne & Hnil & Hann).
+  rewrite (ev_read_body _ _ J S), H1, Ea. cbn [evK K].
+  pose proof (at_most_inv b n I) as Ib'. rewrite E in Ib'. cbn [snd] in Ib'.
+  destruct a' as [|y a'].
+  - rewrite app_nil_r. apply tr_rel_pre. rewrite (Hnil eq_refl).
+    apply ev_cong; [reflexivity|apply buf_inv_zero|apply buf_inv_add; exact Ib'].
+  - destruct (Hne ltac:(discriminate)) as [Hd Hlt].
+    rewrite (ev_read_body _ _ (buf_inv_add b' x Ib') (Hg _)), (H2 _ _ Hlt).
+    assert (Ex : maybe_extract_at_most (buf_add b' x) (n - N.of_nat (length a)) = (Some (y :: a'), mkBuf r' 0 0)).
+    { unfold maybe_extract_at_most. cbn [b_data buf_add]. rewrite Hd. cbn [app]. rewrite Es. reflexivity. }
+    rewrite Ex. cbn [evK]. rewrite Hd. cbn [app]. rewrite pre_pre.
+    rewrite app_length, Nat2N.inj_add.
+    unfold Http1Seg.data_out.
+    destruct (ev (g (N.of_nat (length a) + N.of_nat (length (y :: a')))%N) (mkBuf r' 0 0)) as [[c3 b3] o3].
+    cbn [pre]. split; [right; split; reflexivity|]. unfold flat. cbn [flat_map flat1 app].
+    rewrite map_app, <- !app_assoc. reflexivity.
+Qed.
+
+Lemma at_most_none_data b n b' : maybe_extract_at_most b n = (None, b') -> n <> 0%N -> b_data b = [].
+Proof.
+  unfold maybe_extract_at_most. destruct (b_data b) as [|y t]; [reflexivity|]. intros H Hn. exfalso.
+  cbn [splitN] in H. destruct (N.eqb n 0) eqn:E0; [apply N.eqb_eq in E0; congruence|].
+  destruct (splitN t (N.pred n)); discriminate.
+Qed.
+
+(* read until EOF: everything buffered is passed on *)
+Lemma http10_ev : forall n c b, length (b_data b) < n -> buf_inv b -> c_state c = ReadBody -> c_reader c = Http10Reader ->
+  exists b' o, ev c b = (c, b', o) /\ b_data b' = [] /\ flat o = map (AByte (sid_of c)) (b_data b).
+Proof.
+  induction n as [|n IH]; intros c b Hl I S R; [lia|].
+  rewrite (ev_read_body _ _ I S). unfold Http1Seg.read_body. rewrite R.
+  destruct (maybe_extract_at_most b HTTP10_MAX) as [[d|] b1] eqn:E.
+  - pose proof (at_most_shrinks _ _ _ _ E) as Hs. pose proof (at_most_inv b HTTP10_MAX I) as I1. rewrite E in I1. cbn [snd] in I1.
+    destruct (IH c b1 ltac:(lia) I1 S R) as (b' & o & Ee & Hd & Hf).
+    cbn [evK]. rewrite Ee. cbn [pre]. exists b', (Http1Seg.data_out Req Resp c d ++ o). split; [reflexivity|]. split; [exact Hd|].
+    rewrite flat_app, Hf. unfold Http1Seg.data_out. cbn [flat flat_map flat1]. rewrite app_nil_r, <- map_app. f_equal.
+    unfold maybe_extract_at_most in E.
+    match type of E with context [splitN ?dd ?nn] => destruct (splitN dd nn) as [[|y a] r] eqn:Es end; [discriminate E|].
+    apply splitN_concat in Es. inversion E; subst. cbn [b_data]. exact Es.
+  - pose proof (at_most_none_data _ _ _ E ltac:(discriminate)) as Hd.
+    apply at_most_none in E. subst b1. cbn [evK]. exists b, []. split; [reflexivity|].
+    rewrite Hd. split; reflexivity.
+Qed.
+
+Lemma is_prefix_app_false d a td : is_prefix d td = false -> is_prefix (d ++ a) td = false.
+Proof.
+  revert td; induction d as [|y d IH]; intros td H; [discriminate|].
+  destruct td as [|z td]; [reflexivity|]. simpl in *. destruct (byte_eqb y z); [simpl in *; auto|reflexivity].
+Qed.
+
+Lemma is_prefix_app_true d a td : is_prefix d td = true -> is_prefix (d ++ a) td = is_prefix a (skipn (length d) td).
+Proof.
+  revert td; induction d as [|y d IH]; intros td H; [reflexivity|].
+  destruct td as [|z td]; [discriminate|]. simpl in *. destruct (byte_eqb y z); [simpl in *; auto|discriminate].
+Qed.
+
+Lemma skipn_skipn {A} (n m : nat) (l : list A) : skipn n (skipn m l) = skipn (m + n) l.
+Proof. revert l; induction m as [|m IH]; intros l; [reflexivity|]. destruct l; [rewrite !skipn_nil; reflexivity|apply IH]. Qed.
+
+Lemma read_body_M c b x : buf_inv b -> x <> [] -> c_closed c = false -> c_state c = ReadBody ->
+  guard (read_body c b) x ->
+  tr_rel (ev c (buf_add b x)) (K (read_body c b) x).
+Proof.
+  intros I Hx Hc Hs G. pose proof (buf_inv_add b x I) as J.
+  assert (Hnp : c_state c <> Passthrough) by congruence.
+  pose proof (ev_read_body _ _ J Hs) as Est.
+  destruct (c_reader c) as [rem|inc td tr|] eqn:R.
+  - (* ContentLengthReader *)
+    destruct (N.eqb rem 0) eqn:E0.
+    + unfold Http1Seg.read_body in *. rewrite R, E0 in *. rewrite Est. apply eom_M; auto.
+    + destruct (maybe_extract_at_most b rem) as [[a|] b'] eqn:E.
+      * assert (Hrb : read_body c b = Go (set_reader c (ContentLengthReader (rem - N.of_nat (length a)))) b' (Http1Seg.data_out Req Resp c a)).
+        { unfold Http1Seg.read_body. rewrite R, E0, E. reflexivity. }
+        rewrite Hrb.
+        apply (data_merge c b x rem (fun k => set_reader c (ContentLengthReader (rem - k)))); auto.
+        -- intros bb. unfold Http1Seg.read_body. rewrite R, E0. reflexivity.
+        -- intros k bb Hk. unfold Http1Seg.read_body. cbn [c_reader Http1Seg.set_reader].
+           assert (E1 : N.eqb (rem - k) 0 = false) by (apply N.eqb_neq; lia). rewrite E1.
+           destruct (maybe_extract_at_most bb (rem - k)) as [[d|] b1]; [|reflexivity].
+           unfold Http1Seg.set_reader, Http1Seg.data_out, Http1Seg.sid_of. cbn. rewrite N.sub_add_distr. reflexivity.
+      * assert (Hrb : read_body c b = Stop c b' []) by (unfold Http1Seg.read_body; rewrite R, E0, E; reflexivity).
+        rewrite Hrb. apply at_most_none in E. subst b'. apply retry_pattern; auto. reflexivity.
+  - destruct tr.
+    + (* trailer section *)
+      unfold Http1Seg.read_body, Http1Seg.protocol_error, Http1Seg.crash in *. rewrite R in *.
+      destruct (maybe_extract_lines b) as [[ls|] b'] eqn:E.
+      * rewrite Est, (lines_app _ _ _ _ I E). pose proof (lines_inv _ I) as I'. rewrite E in I'. cbn [snd] in I'.
+        destruct ls as [|l ls']; [apply eom_M; auto|].
+        destruct (trailer (l :: ls')); apply closed_pattern; reflexivity.
+      * destruct (lines_none _ _ I E). apply retry_pattern; auto.
+    + destruct td as [|t0 td'].
+      * destruct (N.eqb inc 0) eqn:E0.
+        -- (* chunk header *)
+           unfold Http1Seg.read_body, Http1Seg.protocol_error in *. rewrite R, E0 in *.
+           destruct (maybe_extract_next_line b) as [[line|] b'] eqn:E.
+           ++ rewrite Est, (next_line_app _ _ _ _ I E).
+              destruct (parse_chunk_header line); [apply tr_rel_refl|apply closed_pattern; reflexivity].
+           ++ destruct (next_line_none _ _ I E). apply retry_pattern; auto.
+        -- (* chunk data *)
+           destruct (maybe_extract_at_most b inc) as [[a|] b'] eqn:E.
+           ++ set (g := fun k : N => set_reader c (ChunkedReader (inc - k) (if N.eqb (inc - k) 0 then CRLF else []) false)).
+              assert (Hrb : read_body c b = Go (g (N.of_nat (length a))) b' (Http1Seg.data_out Req Resp c a)).
+              { unfold Http1Seg.read_body. rewrite R, E0, E. reflexivity. }
+              rewrite Hrb. apply (data_merge c b x inc g); auto.
+              ** intros bb. unfold Http1Seg.read_body. rewrite R, E0. reflexivity.
+              ** intros k bb Hk. unfold Http1Seg.read_body, g. cbn [c_reader Http1Seg.set_reader].
+                 assert (E1 : N.eqb (inc - k) 0 = false) by (apply N.eqb_neq; lia). rewrite E1.
+                 destruct (maybe_extract_at_most bb (inc - k)) as [[d|] b1]; [|reflexivity].
+                 unfold Http1Seg.set_reader, Http1Seg.data_out, Http1Seg.sid_of. cbn. rewrite N.sub_add_distr. reflexivity.
+           ++ assert (Hrb : read_body c b = Stop c b' []) by (unfold Http1Seg.read_body; rewrite R, E0, E; reflexivity).
+              rewrite Hrb. apply at_most_none in E. subst b'. apply retry_pattern; auto. reflexivity.
+      * (* bytes_to_discard *)
+        set (tdl := t0 :: td') in *.
+        assert (Hunf : forall cc bb tdx, c_reader cc = ChunkedReader inc tdx false -> tdx <> [] ->
+                  read_body cc bb = match maybe_extract_at_most bb (N.of_nat (length tdx)) with
+                                    | (None, b1) => Stop cc b1 []
+                                    | (Some d, b1) =>
+                                        if negb (is_prefix d tdx) then protocol_error cc b1
+                                        else match skipn (length d) tdx with
+                                             | _ :: _ => Stop (set_reader cc (ChunkedReader inc (skipn (length d) tdx) false)) b1 []
+                                             | [] => Go (set_reader cc (ChunkedReader inc (skipn (length d) tdx) false)) b1 []
+                                             end
+                                    end).
+        { intros cc bb tdx Rc Hne. unfold Http1Seg.read_body. rewrite Rc. destruct tdx; [congruence|reflexivity]. }
+        rewrite (Hunf c b tdl R ltac:(discriminate)).
+        destruct (maybe_extract_at_most b (N.of_nat (length tdl))) as [[a|] b'] eqn:E.
+        -- destruct (at_most_app _ x _ _ _ E) as (a' & r' & Es & Ea & Hne & Hnil & Hann).
+           pose proof (at_most_inv b (N.of_nat (length tdl)) I) as Ib'. rewrite E in Ib'. cbn [snd] in Ib'.
+           rewrite Est, (Hunf c _ tdl R ltac:(discriminate)), Ea.
+           destruct (is_prefix a tdl) eqn:Ep; cbn [negb].
+           ++ rewrite (is_prefix_app_true _ a' _ Ep).
+              destruct a' as [|y a'].
+              ** rewrite app_nil_r. cbn [is_prefix negb]. rewrite (Hnil eq_refl).
+                 destruct (skipn (length a) tdl) eqn:Esk.
+                 --- cbn [evK K]. apply tr_rel_pre. apply ev_cong; [reflexivity|apply buf_inv_zero|apply buf_inv_add; exact Ib'].
+                 --- cbn [evK K]. unfold hd. cbn [c_closed c_state Http1Seg.set_reader]. rewrite Hc, Hs.
+                     assert (Hb' : b' = mkBuf (b_data b') 0 0).
+                     { unfold maybe_extract_at_most in E. destruct (splitN (b_data b) (N.of_nat (length tdl))) as [[|? ?] ?]; inversion E; reflexivity. }
+                     set (c1 := set_reader c (ChunkedReader inc (b0 :: l) false)).
+                     exfalso. apply (splitN_nonempty _ _ _ _ Es Hx); [|reflexivity].
+                     apply (f_equal (@length byte)) in Esk. rewrite skipn_length in Esk. cbn [length] in Esk. lia.
+              ** destruct (Hne ltac:(discriminate)) as [Hd Hlt].
+                 assert (Hsk : skipn (length a) tdl <> []).
+                 { intros Hn. apply (f_equal (@length byte)) in Hn. rewrite skipn_length in Hn. cbn [length] in Hn. lia. }
+                 destruct (skipn (length a) tdl) as [|s0 sk] eqn:Esk; [congruence|]. clear Hsk.
+                 set (c1 := set_reader c (ChunkedReader inc (s0 :: sk) false)).
+                 cbn [K]. unfold hd. assert (Hc1 : c_closed c1 = false) by exact Hc. assert (Hs1 : c_state c1 = ReadBody) by exact Hs.
+                 rewrite Hc1, Hs1. rewrite pre_nil.
+                 rewrite (ev_read_body _ _ (buf_inv_add b' x Ib') Hs1).
+                 rewrite (Hunf c1 _ (s0 :: sk) eq_refl ltac:(discriminate)).
+                 assert (Hlen : (N.of_nat (length tdl) - N.of_nat (length a))%N = N.of_nat (length (s0 :: sk))).
+                 { rewrite <- Esk, skipn_length. lia. }
+                 assert (Ex : maybe_extract_at_most (buf_add b' x) (N.of_nat (length (s0 :: sk))) = (Some (y :: a'), mkBuf r' 0 0)).
+                 { unfold maybe_extract_at_most. cbn [b_data buf_add]. rewrite Hd. cbn [app]. rewrite <- Hlen, Es. reflexivity. }
+                 rewrite Ex, Hd. cbn [app].
+                 destruct (is_prefix (y :: a') (s0 :: sk)) eqn:Ep2; cbn [negb].
+                 --- rewrite app_length, <- skipn_skipn, Esk.
+                     destruct (skipn (length (y :: a')) (s0 :: sk)); apply tr_rel_refl.
+                 --- unfold Http1Seg.protocol_error. cbn [evK]. split; [left; split; reflexivity|reflexivity].
+           ++ rewrite (is_prefix_app_false _ a' _ Ep). cbn [negb]. apply closed_pattern. reflexivity.
+        -- apply at_most_none in E. subst b'. apply retry_pattern; auto. reflexivity.
+  - (* Http10Reader *)
+    assert (Hrb : read_body c b = match maybe_extract_at_most b HTTP10_MAX with
+                                  | (None, b1) => Stop c b1 []
+                                  | (Some d, b1) => Go c b1 (Http1Seg.data_out Req Resp c d)
+                                  end) by (unfold Http1Seg.read_body; rewrite R; reflexivity).
+    rewrite Hrb.
+    destruct (http10_ev _ c (buf_add b x) (Nat.lt_succ_diag_r _) J Hs R) as (bx & ox & Eex & Hdx & Hfx).
+    destruct (maybe_extract_at_most b HTTP10_MAX) as [[a|] b'] eqn:E.
+    + pose proof (at_most_inv b HTTP10_MAX I) as Ib'. rewrite E in Ib'. cbn [snd] in Ib'.
+      destruct (http10_ev _ c (buf_add b' x) (Nat.lt_succ_diag_r _) (buf_inv_add _ x Ib') Hs R) as (by' & oy & Eey & Hdy & Hfy).
+      cbn [K]. rewrite Eex, Eey. cbn [pre]. split; [right; split; [reflexivity|unfold beq; congruence]|].
+      rewrite flat_app, Hfx, Hfy. unfold Http1Seg.data_out. cbn [flat flat_map flat1 b_data buf_add]. rewrite app_nil_r, <- map_app. f_equal.
+      rewrite app_assoc. f_equal.
+      unfold maybe_extract_at_most in E.
+      match type of E with context [splitN ?dd ?nn] => destruct (splitN dd nn) as [[|y0 a0] r0] eqn:Es end; [discriminate E|].
+      apply splitN_concat in Es. inversion E; subst. cbn [b_data]. congruence.
+    + apply at_most_none in E. subst b'. apply retry_pattern; auto. reflexivity.
+Qed.
+
+(* ---------------------------------------------------------------- the main induction *)
+Lemma step_M c b x : buf_inv b -> x <> [] -> c_closed c = false -> c_state c <> Passthrough ->
+  guard (step c b) x -> tr_rel (ev c (buf_add b x)) (K (step c b) x).
+Proof.
+  intros I Hx Hc Hnp G. unfold Http1Seg.step in *. destruct (c_state c) eqn:S.
+  - apply read_headers_M; auto.
+  - apply read_body_M; auto.
+  - cbn [K]. unfold hd. rewrite Hc, S, pre_nil. apply tr_rel_refl.
+  - cbn [K]. unfold hd. rewrite Hc, S, pre_nil. apply tr_rel_refl.
+  - congruence.
+Qed.
+
+Lemma feed_app_ev : forall n c b x, mu c b < n -> buf_inv b -> x <> [] -> c_closed c = false -> c_state c <> Passthrough ->
+  (let '(c1, _, _) := ev c b in ok_stop c1 x) ->
+  tr_rel (ev c (buf_add b x)) (let '(c1, b1, o1) := ev c b in pre o1 (hd c1 b1 x)).
+Proof.
+  induction n as [|n IH]; intros c b x Hm I Hx Hc Hnp G; [lia|].
+  rewrite (ev_step c b I) in G |- *. pose proof (step_inv c b I) as J.
+  pose proof (step_M c b x I Hx Hc Hnp) as M.
+  destruct (step c b) as [c' b' o|c' b' o] eqn:E; cbn [evK guard K] in *.
+  - destruct (step_go _ _ _ _ _ I E) as (Hlt & Hcl & Hst).
+    specialize (IH c' b' x ltac:(lia) J Hx ltac:(congruence) Hst).
+    destruct (ev c' b') as [[c1 b1] o1]. cbn [pre] in *. specialize (IH G).
+    eapply tr_rel_trans; [exact (M Logic.I)|]. rewrite <- pre_pre. apply tr_rel_pre. exact IH.
+  - exact (M G).
+Qed.
+
+Lemma handle_data_hd c b d : buf_inv b -> handle_data c b d = let '(c', b', o) := hd c b d in Finished c' b' o.
+Proof. intros I. rewrite (handle_data_ev c b d I). reflexivity. Qed.
+
+Lemma hd_inv c b x : buf_inv b -> let '(_, b', _) := hd c b x in buf_inv b'.
+Proof.
+  intros I. unfold hd. destruct (c_closed c); [exact I|].
+  destruct (c_state c); try exact I; apply ev_inv, buf_inv_add, I.
+Qed.
+
+Lemma buf_add_assoc b a x : buf_add b (a ++ x) = buf_add (buf_add b a) x.
+Proof. unfold buf_add. cbn [b_data b_nls b_mls]. rewrite app_assoc. reflexivity. Qed.
+
+(* the cut between two segments is harmless: not one of the two places where the code depends on it *)
+Definition cut_ok (c c1 : conn) (x : bytes) : Prop :=
+  c_closed c = false -> c_state c <> Passthrough -> ok_stop c1 x.
+
+Lemma hd_closed c b x : c_closed c = true -> hd c b x = (c, b, []).
+Proof. unfold hd. intros ->. reflexivity. Qed.
+Lemma hd_pass c b x : c_closed c = false -> c_state c = Passthrough -> hd c b x = (c, b, [OData (sid_of c) x]).
+Proof. unfold hd. intros -> ->. reflexivity. Qed.
+Lemma hd_live c b x : c_closed c = false -> c_state c <> Passthrough -> hd c b x = ev c (buf_add b x).
+Proof. unfold hd. intros -> H. destruct (c_state c); congruence. Qed.
+
+Theorem feed_app_hd c b a x : buf_inv b -> a <> [] -> x <> [] ->
+  (let '(c1, _, _) := hd c b a in cut_ok c c1 x) ->
+  tr_rel (hd c b (a ++ x)) (let '(c1, b1, o1) := hd c b a in pre o1 (hd c1 b1 x)).
+Proof.
+  intros I Ha Hx G. destruct (c_closed c) eqn:Hc.
+  - rewrite !(hd_closed c b _ Hc). cbv beta iota zeta. rewrite ?(hd_closed c b _ Hc). cbn [pre app]. apply tr_rel_refl.
+  - destruct (c_state c) eqn:S.
+    5: { rewrite !(hd_pass c b _ Hc S). cbv beta iota zeta. rewrite ?(hd_pass c b _ Hc S). cbn [pre app].
+         split; [right; split; reflexivity|]. apply flat_data_app. }
+    all: assert (Hnp : c_state c <> Passthrough) by congruence;
+      rewrite !(hd_live c b _ Hc Hnp) in *; rewrite buf_add_assoc;
+      apply (feed_app_ev (Datatypes.S (mu c (buf_add b a)))); auto using buf_inv_add;
+      destruct (ev c (buf_add b a)) as [[c1 b1] o1]; apply G; congruence.
+Qed.
+
+(* any number of segments *)
+Fixpoint feed_all (c : conn) (b : rbuf) (segs : list bytes) : triple :=
+  match segs with
+  | [] => (c, b, [])
+  | s :: rest => let '(c1, b1, o1) := hd c b s in pre o1 (feed_all c1 b1 rest)
+  end.
+
+Fixpoint cuts_ok (c : conn) (b : rbuf) (segs : list bytes) : Prop :=
+  match segs with
+  | [] => True
+  | s :: rest => let '(c1, b1, _) := hd c b s in (rest <> [] -> cut_ok c c1 (concat rest)) /\ cuts_ok c1 b1 rest
+  end.
+
+Theorem any_segmentation : forall segs c b, buf_inv b -> Forall (fun s => s <> []) segs -> segs <> [] ->
+  cuts_ok c b segs -> tr_rel (hd c b (concat segs)) (feed_all c b segs).
+Proof.
+  induction segs as [|s rest IH]; intros c b I Hne Hs G; [congruence|].
+  inversion Hne as [|? ? Hs1 Hrest]; subst. cbn [concat feed_all cuts_ok] in *.
+  pose proof (hd_inv c b s I) as J.
+  destruct rest as [|s2 rest'].
+  - cbn [concat feed_all]. rewrite app_nil_r. destruct (hd c b s) as [[c1 b1] o1]. cbn [pre]. rewrite app_nil_r. apply tr_rel_refl.
+  - assert (Hx : concat (s2 :: rest') <> []).
+    { inversion Hrest; subst. cbn [concat]. destruct s2; [congruence|discriminate]. }
+    pose proof (feed_app_hd c b s (concat (s2 :: rest')) I Hs1 Hx) as F.
+    destruct (hd c b s) as [[c1 b1] o1]. destruct G as [G1 G2].
+    eapply tr_rel_trans; [apply F, G1; discriminate|]. apply tr_rel_pre. apply IH; auto. discriminate.
+Qed.
+
+(* no parsing while the current flow is unfinished *)
+Lemma wait_defers c b d : buf_inv b -> c_state c = Wait -> c_closed c = false -> hd c b d = (c, buf_add b d, []).
+Proof.
+  intros I S Hc. rewrite (hd_live c b d Hc) by congruence. rewrite (ev_step _ _ (buf_inv_add b d I)).
+  unfold Http1Seg.step. rewrite S. reflexivity.
+Qed.
+
+(* ---------------------------------------------------------------- the same statements about handle_data itself *)
+Theorem handle_data_total c b d : buf_inv b -> exists c' b' o, handle_data c b d = Finished c' b' o /\ buf_inv b'.
+Proof.
+  intros I. rewrite (handle_data_hd c b d I). pose proof (hd_inv c b d I) as J.
+  destruct (hd c b d) as [[c' b'] o]. eauto.
+Qed.
+
+Theorem feed_app_handle_data c b a x : buf_inv b -> a <> [] -> x <> [] ->
+  exists c1 b1 o1 c2 b2 o2 c3 b3 o3,
+    handle_data c b a = Finished c1 b1 o1 /\ handle_data c1 b1 x = Finished c2 b2 o2 /\
+    handle_data c b (a ++ x) = Finished c3 b3 o3 /\
+    (cut_ok c c1 x -> fin_rel c3 b3 c2 b2 /\ flat o3 = flat (o1 ++ o2)).
+Proof.
+  intros I Ha Hx. pose proof (feed_app_hd c b a x I Ha Hx) as F. pose proof (hd_inv c b a I) as J.
+  destruct (hd c b a) as [[c1 b1] o1] eqn:E1. destruct (hd c1 b1 x) as [[c2 b2] o2] eqn:E2.
+  destruct (hd c b (a ++ x)) as [[c3 b3] o3] eqn:E3.
+  exists c1, b1, o1, c2, b2, o2, c3, b3, o3.
+  split; [rewrite (handle_data_hd c b a I), E1; reflexivity|].
+  split; [rewrite (handle_data_hd c1 b1 x J), E2; reflexivity|].
+  split; [rewrite (handle_data_hd c b (a ++ x) I), E3; reflexivity|].
+  intros G. rewrite ?E1, ?E3 in F. cbv beta iota zeta in F. rewrite ?E2 in F. exact (F G).
+Qed.
+
+Fixpoint run_segments (c : conn) (b : rbuf) (segs : list bytes) : option triple :=
+  match segs with
+  | [] => Some (c, b, [])
+  | s :: rest => match handle_data c b s with
+                 | Finished c1 b1 o1 => option_map (pre o1) (run_segments c1 b1 rest)
+                 | OutOfFuel => None
+                 end
+  end.
+
+Lemma run_segments_feed_all : forall segs c b, buf_inv b -> run_segments c b segs = Some (feed_all c b segs).
+Proof.
+  induction segs as [|s rest IH]; intros c b I; [reflexivity|]. cbn [run_segments feed_all].
+  rewrite (handle_data_hd c b s I). pose proof (hd_inv c b s I) as J. destruct (hd c b s) as [[c1 b1] o1].
+  rewrite (IH c1 b1 J). reflexivity.
+Qed.
+
+Theorem any_segmentation_handle_data segs c b : buf_inv b -> Forall (fun s => s <> []) segs -> segs <> [] ->
+  exists c2 b2 o2 c3 b3 o3,
+    run_segments c b segs = Some (c2, b2, o2) /\ handle_data c b (concat segs) = Finished c3 b3 o3 /\
+    (cuts_ok c b segs -> fin_rel c3 b3 c2 b2 /\ flat o3 = flat o2).
+Proof.
+  intros I Hne Hs. rewrite (run_segments_feed_all segs c b I), (handle_data_hd c b _ I).
+  pose proof (any_segmentation segs c b I Hne Hs) as F.
+  destruct (feed_all c b segs) as [[c2 b2] o2]. destruct (hd c b (concat segs)) as [[c3 b3] o3].
+  exists c2, b2, o2, c3, b3, o3. repeat (split; [reflexivity|]). exact F.
+Qed.
+
+Theorem wait_defers_handle_data c b d : buf_inv b -> c_state c = Wait -> c_closed c = false ->
+  handle_data c b d = Finished c (buf_add b d) [].
+Proof. intros I S Hc. rewrite (handle_data_hd c b d I), (wait_defers c b d I S Hc). reflexivity. Qed.
+
 End P.
